@@ -78,7 +78,8 @@ def r1_alias_mutation(ctx, rep):
 
 def r2_innermost_wins(ctx, rep, only_use: bool = False):
     py = ctx.py
-    fn = py.func("FortranCodeUnit.correlate")
+    # canonical form: a table-driven loop over (all_*, pub_*) pairs is unrolled, getattr(self, "<table>") is self.<table>
+    fn = py.ifunc("FortranCodeUnit.correlate")
     events: Dict[str, List[Tuple[int, str, str]]] = {t: [] for t in TABLES}
 
     def classify(src: str) -> str:
@@ -86,7 +87,7 @@ def r2_innermost_wins(ctx, rep, only_use: bool = False):
             return "ANCESTOR"
         if "self.parent" in src:
             return "HOST"
-        if src in use_names:
+        if src in use_names or re.sub(r"\[\d+\]$", "", src) in use_names:      # `used[2]`: one element of the imported tuple
             return "USE"
         return "LOCAL"
 
@@ -140,7 +141,7 @@ def r2_innermost_wins(ctx, rep, only_use: bool = False):
                 or (isinstance(x, ast.Attribute) and x.attr == "retvar" and ast.unparse(x.value) == "self.parent") for x in ast.walk(n.test)):
             events["all_vars"].append((n.lineno, "HOST", "parent's result variable"))
     # tables that are first filled in _cleanup (before correlate): an assignment there from the unit's own lists is LOCAL
-    cl = py.func("FortranCodeUnit._cleanup")
+    cl = py.ifunc("FortranCodeUnit._cleanup")
     for n in ast.walk(cl):
         if isinstance(n, ast.Assign) and isinstance(n.targets[0], ast.Attribute) and n.targets[0].attr in TABLES and \
                 ast.unparse(n.targets[0].value) == "self" and classify(ast.unparse(n.value)) == "LOCAL":
@@ -271,7 +272,7 @@ def r4_no_project_fallback(ctx, rep):
 def r5_type_extension_order(ctx, rep):
     py = ctx.py
     for q in ("FortranCodeUnit.correlate", "FortranBlockData.correlate"):
-        fn = py.func(q)
+        fn = py.ifunc(q)        # canonical form: the ordering may live in a helper (`self._types_in_extension_order()`)
         # the loop that correlates types iterates a toposorted order of the extension map
         loops = [n for n in ast.walk(fn) if isinstance(n, ast.For) and isinstance(n.target, ast.Name) and any(
             isinstance(c, ast.Call) and isinstance(c.func, ast.Attribute) and c.func.attr == "correlate"
@@ -287,7 +288,7 @@ def r5_type_extension_order(ctx, rep):
         lookups = [n for n in ast.walk(fn) if isinstance(n, ast.Assign) and ast.unparse(n.targets[0]).endswith(".extends")
                    and isinstance(n.value, ast.Subscript) and ast.unparse(n.value.value).endswith("all_types")
                    and any(isinstance(c, ast.Call) and isinstance(c.func, ast.Attribute) and c.func.attr in ("lower", "casefold")
-                           for c in ast.walk(n.value.slice))]
+                           for x in astq.expand_locals(n.value.slice, fn) for c in ast.walk(x))]
         ok = bool(stores) and bool(lookups)
         rep.ob(f"{q}: parent looked up case-insensitively in the merged table", ok, "", py.nloc(fn))
         # the lookup happens after USE merging
@@ -396,6 +397,24 @@ def r8_tables_not_shrunk(ctx, rep):
     rep.ob("scope tables are never shrunk", n == 0, "no pop/del/clear on self.all_* in the entity classes" if n == 0 else f"{n} site(s)",
            "ford/sourceform.py", nontrivial=False)
 
+
+def r9_inherited_bindings_are_copies(ctx, rep):
+    """a generic binding inherited by an extending type is a copy of the base type's binding with its own list of specific
+    bindings: resolving the specifics for the child (child%a => ext_a) must not rewrite the base type's generic"""
+    from . import common
+    py = ctx.py
+    def elem_class(fn, src):
+        # the copied object is an element of a `boundprocs` collection -> FortranBoundProcedure
+        for x in astq.expand_locals(src, fn):
+            for n in ast.walk(fn):
+                if isinstance(n, (ast.For, ast.comprehension)) and isinstance(n.target, ast.Name) and ast.unparse(n.target) == ast.unparse(src) \
+                        and any(isinstance(a, ast.Attribute) and a.attr == "boundprocs" for a in ast.walk(n.iter)):
+                    return "FortranBoundProcedure"
+        return None
+    n = common.shallow_copy_shares_lists(ctx, rep, elem_class)
+    rep.ob("shallow copies of type-bound procedures inspected", True, f"{n} (copy, in-place-mutated list attribute) pair(s)",
+           "ford/sourceform.py", nontrivial=False)
+
 RULES = [
     RuleSpec("C07.R6", r6_block_scope, "block-local declarations stay out of the enclosing scope", floor=4),
     RuleSpec("C07.R7", r7_use_is_complete_when_read, "importers are correlated after their exporters (shared with C06.R3)", floor=5),
@@ -404,5 +423,6 @@ RULES = [
     RuleSpec("C07.R3", r3_lower_keys, "case-insensitive keys", floor=16),
     RuleSpec("C07.R4", r4_no_project_fallback, "no project-wide fallback in correlate", floor=8),
     RuleSpec("C07.R5", r5_type_extension_order, "type extension order", floor=3),
+    RuleSpec("C07.R9", r9_inherited_bindings_are_copies, "inherited generic bindings do not share their binding list with the base type", floor=1),
     RuleSpec("C07.R8", r8_tables_not_shrunk, "scope tables are only extended", floor=1),
 ]
